@@ -20,6 +20,7 @@ func Minimise(env *Env, f PropFunc, r *ReplayFile, budget time.Duration) (*Repla
 		if et == nil {
 			rc.ReplayExec = []uint32{}
 		}
+		rc.execSeed = uint64(rc.CaseTape.Choose(1 << 30))
 		f(env, rc)
 		for _, v := range rc.Rec.Violations {
 			if v.Class == r.Class && v.Site == r.Site {
